@@ -123,6 +123,16 @@ func (h *hierarchy) mkSub(i int) *sub {
 	withRoot := false
 	var extra []pki.Ext
 	shape := i % nShapes
+	if i == nShapes || i == 2*nShapes-1 {
+		// a trusted root submitted on its own: a validated path of length one, stored with an empty chain
+		s.leaf = h.R
+		s.label = "root certificate on its own"
+		if i != nShapes {
+			s.leaf, s.label = h.R2, "root certificate (rsa) on its own"
+		}
+		s.submitted = [][]byte{s.leaf.DER}
+		return s
+	}
 	switch shape {
 	case 0:
 		s.label, parent = "cert<-root, root omitted", h.R
